@@ -11,7 +11,7 @@ use c02::*;
 use rre_harness::*;
 
 fn rule(name: u64, sal: i64, flags: u8, cond: (char, u64, i64), acts: Vec<(char, u64, i64)>) -> RuleSpec {
-    RuleSpec { name, sal, flags, ag: None, actg: None, eff: None, exp: None, cond, acts }
+    RuleSpec { name, sal, flags, ag: None, actg: None, eff: None, exp: None, effh: How::Z, exph: How::Z, cond, acts }
 }
 
 fn gen(rng: &mut Rng, n: usize, _tier: &str) -> Vec<String> {
